@@ -37,6 +37,8 @@ def main():
             for o in obs:
                 o.id = o.id.replace("/" + ex.obl_prefix + "/", "/" + tgt.obl_prefix + "/", 1)
         out["vcgen_s"] = round(time.time() - t1, 3)
+        out["generated"] = len(obs)
+        obs = [o for o in obs if tgt.keeps(o.id)]
         timeout = tgt.timeout or (20 if tier == "quick" else 120)
         both = (tier == "thorough")
         syms = []
